@@ -81,11 +81,19 @@ AtClasses == {"valid", "trunc", "extend", "bitflip", "random", "at_quote", "at_e
 AttC    == Generic \cup {"att_unknown_op", "att_server_pdu"}
 SmpC    == Generic \cup {"smp_unknown_code", "smp_out_of_order"}  \* (Base sets; Structured / "advance" are added below)
 SigC    == Generic \cup {"sig_unknown_code", "sig_multi", "sig_unsolicited_rsp"}
-SdpC    == Generic \cup {"sdp_nest_deep", "sdp_size_lie", "sdp_bad_continuation", "chan_disc"}
+\* "sdp_nest_siblings": containers (SEQUENCE and ALTERNATIVE, mixed) nested far beyond any depth a guard allows in
+\* which every level holds further elements before and / or after the nested container (a depth count is only a bound
+\* on the recursion if it is kept per container, whatever else the container holds); "sdp_nest_deep": plain chains
+SdpC    == Generic \cup {"sdp_nest_deep", "sdp_nest_siblings", "sdp_size_lie", "sdp_bad_continuation", "chan_disc"}
 RfcommC == Generic \cup {"rfc_len_ea", "rfc_bad_fcs", "rfc_unknown_dlci", "rfc_mcc", "rfc_disc", "chan_disc"}
 AvdtpC  == Generic \cup {"frag_drop", "frag_dup", "frag_mislabel", "chan_disc"}
 AvctpC  == Generic \cup {"frag_drop", "frag_dup", "frag_mislabel", "avctp_bad_pid", "chan_disc"}
-CocC    == Generic \cup {"coc_sdu_len_lie", "coc_oversize", "coc_zero_credit_flood", "chan_disc"}
+\* "coc_sdu_over_mtu": COMPLETE, correctly framed SDUs (K-frames within the MPS and the credits, exactly SDU-length
+\* bytes) whose SDU length exceeds the MTU the receiver announced.  The receiver may deliver, drop or refuse them (and
+\* may close the channel, which its peer is told about), but the sender has NOT desynchronised the channel: the unit
+\* ends on an SDU boundary, it is not in CocPartial, and the reference request is owed on the SAME channel if that is
+\* still open.  ("coc_sdu_len_lie": SDU length that disagrees with the bytes that follow, partial.)
+CocC    == Generic \cup {"coc_sdu_len_lie", "coc_sdu_over_mtu", "coc_oversize", "coc_zero_credit_flood", "chan_disc"}
 HciC    == {"evt_valid", "evt_trunc", "evt_extend", "evt_bitflip", "evt_badlen", "evt_unknown", "random",
             "acl_cont_orphan", "acl_start_short", "acl_excess", "acl_start_start", "acl_bad_handle",
             "acl_bad_l2cap_len", "acl_pb_reserved", "iso_bad", "sco_bad", "pkt_unknown_type", "evt_disconnect"}
@@ -143,7 +151,8 @@ NoDelimiter == {"le_coc"}
 
 \* classes that can leave a partial unit behind (assembler mid-message, unterminated line)
 \* (an "extreme" unit on an LE credit based channel contains K-frames; "out_of_phase" is signalling only)
-CocPartial == CocX \ {"chan_disc", "coc_zero_credit_flood", "out_of_phase"}
+\* ("coc_sdu_over_mtu" is made of complete SDUs only: nothing of it can be pending in a conforming assembler)
+CocPartial == CocX \ {"chan_disc", "coc_zero_credit_flood", "out_of_phase", "coc_sdu_over_mtu"}
 AnyPartial == {"trunc", "frag_drop", "frag_mislabel", "acl_start_short", "acl_start_start", "at_quote", "random",
                "bitflip", "extend", "badlen"}
 Partial(c) == IF c \in NoDelimiter THEN CocPartial ELSE AnyPartial
@@ -160,9 +169,10 @@ VARIABLES ch,       \* the channel under attack
           mid,      \* a partial unit may be pending in an assembler / line buffer
           lost,     \* the link went away
           discs,    \* kinds of valid disconnect injected so far (history)
-          txn       \* a reference transaction started by the peer is in progress (not abandoned)
+          txn,      \* a reference transaction started by the peer is in progress (not abandoned)
+          moved     \* the peer went over to a fresh channel although the victim had left the old one open (history)
 
-vars == <<ch, hist, phase, cur, connUp, chanUp, mid, lost, discs, txn>>
+vars == <<ch, hist, phase, cur, connUp, chanUp, mid, lost, discs, txn, moved>>
 
 \* the phase in which the next fault arrives: how many in-order steps of the reference transaction
 \* have been made (0 = no transaction, 1 = after the request, 2 = after the second step ...)
@@ -174,11 +184,11 @@ TypeOK == /\ ch \in AllChannels
           /\ cur \in [cls : ClassesOf(ch) \cup {""}, disc : {"none", "chan", "conn"}]
           /\ connUp \in BOOLEAN /\ chanUp \in BOOLEAN /\ mid \in BOOLEAN /\ lost \in BOOLEAN
           /\ discs \subseteq {"chan", "conn"}
-          /\ txn \in BOOLEAN
+          /\ txn \in BOOLEAN /\ moved \in BOOLEAN
 
 Init == /\ ch \in Channels
         /\ hist = <<>> /\ phase = "idle" /\ cur = [cls |-> "", disc |-> "none"]
-        /\ connUp = TRUE /\ chanUp = TRUE /\ mid = FALSE /\ lost = FALSE /\ discs = {} /\ txn = FALSE
+        /\ connUp = TRUE /\ chanUp = TRUE /\ mid = FALSE /\ lost = FALSE /\ discs = {} /\ txn = FALSE /\ moved = FALSE
 
 Inject(c, d, t) ==
     /\ phase = "idle" /\ connUp /\ chanUp
@@ -194,14 +204,14 @@ Inject(c, d, t) ==
     /\ mid' = (mid \/ c \in Partial(ch))
     /\ phase' = "busy"
     /\ discs' = IF d = "none" THEN discs ELSE discs \cup {d}
-    /\ UNCHANGED <<ch, connUp, chanUp, lost>>
+    /\ UNCHANGED <<ch, connUp, chanUp, lost, moved>>
 
 Done(o, s) ==
     /\ phase = "busy"
     /\ o \in Outcomes
     /\ s \in 0..StepBudget
     /\ phase' = "checked"
-    /\ UNCHANGED <<ch, hist, cur, connUp, chanUp, mid, lost, discs, txn>>
+    /\ UNCHANGED <<ch, hist, cur, connUp, chanUp, mid, lost, discs, txn, moved>>
 
 Alive(b, o) ==
     /\ phase = "checked"
@@ -214,13 +224,14 @@ Alive(b, o) ==
     /\ mid' = (mid /\ o)
     /\ txn' = (txn /\ o)                \* a transaction does not outlive the channel it runs on
     /\ phase' = IF b THEN "idle" ELSE "end"
-    /\ UNCHANGED <<ch, hist, cur, discs>>
+    /\ UNCHANGED <<ch, hist, cur, discs, moved>>
 
 Reopen(ok) ==
     /\ phase = "idle" /\ connUp
     /\ ~chanUp \/ (ch \in NoDelimiter /\ mid)
     /\ ok = TRUE
     /\ chanUp' = TRUE /\ mid' = FALSE /\ txn' = FALSE
+    /\ moved' = (moved \/ chanUp)
     /\ UNCHANGED <<ch, hist, phase, cur, connUp, lost, discs>>
 
 \* the peer gives up the transaction it has in progress, by the ordinary procedure of the protocol
@@ -228,7 +239,7 @@ Abandon ==
     /\ phase = "idle" /\ connUp /\ chanUp /\ txn
     /\ Len(hist) > 0
     /\ txn' = FALSE
-    /\ UNCHANGED <<ch, hist, phase, cur, connUp, chanUp, mid, lost, discs>>
+    /\ UNCHANGED <<ch, hist, phase, cur, connUp, chanUp, mid, lost, discs, moved>>
 
 Probe ==
     /\ phase = "idle" /\ connUp /\ chanUp
@@ -236,13 +247,13 @@ Probe ==
     /\ ~txn
     /\ phase' = "probing"
     /\ mid' = FALSE
-    /\ UNCHANGED <<ch, hist, cur, connUp, chanUp, lost, discs, txn>>
+    /\ UNCHANGED <<ch, hist, cur, connUp, chanUp, lost, discs, txn, moved>>
 
 ProbeReply(ok) ==
     /\ phase = "probing"
     /\ ok = TRUE
     /\ phase' = "end"
-    /\ UNCHANGED <<ch, hist, cur, connUp, chanUp, mid, lost, discs, txn>>
+    /\ UNCHANGED <<ch, hist, cur, connUp, chanUp, mid, lost, discs, txn, moved>>
 
 \* what the model explores: every class of the channel, with the disconnect kind it has by construction
 \* (a unit of another class is a step of the reference transaction only by accident: explored as FALSE, and as
@@ -279,6 +290,11 @@ OnlyOnOpenChannel == (phase \in {"busy", "probing"}) => (connUp /\ chanUp)
 \* the probe is never glued to a partial unit, nor made inside a transaction the peer left open: the
 \* reference request starts a new unit and a new transaction
 ProbeStartsClean == (phase = "probing") => (~mid /\ ~txn)
+
+\* on a channel without delimiter the reference request moves to a fresh channel only because of a partial unit: after
+\* units that all end on an SDU boundary it is made on the channel the units were sent on (if the victim left it open)
+SameChannelUnlessPartial ==
+    (phase = "probing" /\ \A i \in DOMAIN hist : hist[i] \notin Partial(ch)) => ~moved
 
 \* a behaviour that ends with the link up has had its reference request answered
 EndsAnswered == (phase = "end" /\ connUp) => (chanUp /\ ~mid)
